@@ -29,6 +29,7 @@ func checkC05(p *Prog, r *Report) {
 	c04StartOffset(p, r, "C05.R7")
 	c05FreshFiles(p, r)
 	sessionOpenRule(p, r, "C05.R9")
+	recordValueRule(p, r, "C05.R11")
 	// the output configuration a run writes its records through (columns bound to this run's state by reflection) is
 	// built by the run itself: nothing parsed or bound is kept in the session and handed to another run (shared with
 	// C03.R2b / C11.R5)
